@@ -1,4 +1,6 @@
 mod e1;
+mod e2;
+mod e3;
 mod e4;
 mod e5;
 mod e7;
@@ -34,8 +36,29 @@ fn main() {
     let thorough = tier == "thorough";
     let mut ev = Evidence::new(id, if thorough { "thorough" } else { "quick" });
     match id {
-        "C01" | "C02" | "C03" | "C04" | "C07" | "C08" | "C10" | "C12" | "C13" | "C14" | "C19" => {
-            run_e1_property(id, thorough, &mut ev, t0);
+        "C01" | "C02" | "C03" | "C04" | "C07" | "C08" | "C10" | "C12" | "C13" | "C14" | "C19" | "C05" | "C06" => {
+            let e2_first = matches!(id, "C05" | "C06" | "C07");
+            if e2_first {
+                run_e2_property(id, thorough, &mut ev);
+            }
+            if !report::stopped() {
+                run_e1_property(id, thorough, &mut ev, t0);
+            }
+            if !e2_first && id != "C01" && id != "C04" && !report::stopped() {
+                run_e2_property(id, thorough, &mut ev);
+            }
+        }
+        "C09" => {
+            let checks = e3::C09 | if thorough { PARSE_LINK } else { 0 };
+            ev.families.push(e3::run_trie(id, checks, "", 15, "Gold's complete placement trie"));
+            let n_silver = if thorough { 24 } else { 2 };
+            for g in e3::gold_setups(n_silver) {
+                if report::stopped() { break; }
+                ev.families.push(e3::run_trie(id, e3::C09, &g, 15, &format!("Silver's complete placement trie after Gold's order {}", g)));
+            }
+            // cross-dependence: every order of Gold's 8 non-rabbit pieces on the first 8 squares (then rabbits) x Silver prefixes
+            ev.nontrivial_rule = "states = distinct placement prefixes (trie nodes), transitions = real place() calls; non-trivial = complete 32-piece setups reached (leaves of a Silver trie), each checked for the start-of-play conditions".into();
+            ev.nontrivial_keys = vec!["c09_complete_setups"];
         }
         "C15" => run_c15(thorough, &mut ev, t0),
         "C16" => {
@@ -96,6 +119,8 @@ fn run_e1_property(id: &str, thorough: bool, ev: &mut Evidence, t0: Instant) {
     ev.nontrivial_rule = "distinct = distinct (root, board, step, status, parse-set) keys; non-trivial counted per property in 'counters'".into();
     ev.nontrivial_keys = match id {
         "C01" => vec!["c01_states_with_push_or_pull_status"],
+        "C05" => vec!["c05_second_occurrences"],
+        "C06" => vec!["c06_states_with_withheld_action"],
         "C02" => vec!["c02_capturing_transitions"],
         "C03" => vec!["c03_turn_ends_by_pass", "c03_turn_ends_by_fourth_step"],
         "C04" => vec!["c04_decided_turn_starts"],
@@ -108,6 +133,15 @@ fn run_e1_property(id: &str, thorough: bool, ev: &mut Evidence, t0: Instant) {
         "C19" => vec!["c19_queries"],
         _ => vec![],
     };
+}
+
+fn run_e2_property(id: &str, thorough: bool, ev: &mut Evidence) {
+    let checks = check_bit(id);
+    let cfgs = e2::configs(thorough);
+    for r in e2::run_configs(id, checks, &cfgs) {
+        eprintln!("  {} : states={} transitions={} {:.1}s {} {}", r.family, r.stats.states, r.stats.transitions, r.wall_s, if r.complete { "complete" } else { "INCOMPLETE" }, r.note);
+        ev.families.push(r);
+    }
 }
 
 fn run_c15(thorough: bool, ev: &mut Evidence, t0: Instant) {
